@@ -194,13 +194,16 @@ def families(run, prop, tier, seed, binary, ident_fn, classify_fn, payload_fn=No
     t0 = time.time()
     qi = 0 if tier == "quick" else 1
     wk = max(1, NCPU // max(1, len(fams)))
+    # session properties replay ~35 make/unmake pairs per position: sample the families more thinly
+    mult = 5 if prop in ("C04", "C05") else 1
+    stride = {f: (FAM_STRIDE[f][qi] * mult if FAM_STRIDE[f][qi] > 1 or mult == 1 else (3 if qi == 0 else 1)) for f in fams}
     with ThreadPoolExecutor(max_workers=len(fams)) as ex:
-        lists = list(ex.map(lambda f: enumerate_family(run, f, FAM_STRIDE[f][qi], seed, wk), fams))
+        lists = list(ex.map(lambda f: enumerate_family(run, f, stride[f], seed, wk), fams))
     counts = {f: len(l) for f, l in zip(fams, lists)}
     allpos = [p for l in lists for p in l]
     log(f"[fam] TLC enumerated {len(allpos)} family positions {counts} in {time.time() - t0:.1f}s")
-    run.extra["families"] = {"positions": counts, "stride": {f: FAM_STRIDE[f][qi] for f in fams},
-                             "exhaustive_families": [f for f in fams if FAM_STRIDE[f][qi] == 1]}
+    run.extra["families"] = {"positions": counts, "stride": stride,
+                             "exhaustive_families": [f for f in fams if stride[f] == 1]}
     for f, n in counts.items():
         if n == 0:
             run.tool_error(f"vacuous: family {f} produced no position")
@@ -211,14 +214,7 @@ def families(run, prop, tier, seed, binary, ident_fn, classify_fn, payload_fn=No
             f.write(json.dumps(p) + "\n")
     rc, txt = run_harness(binary, ["gen-from", prop, pf, d, cap or (250 if tier == "quick" else 2000)])
     log(f"[gen] families: {txt.strip().splitlines()[-1] if txt.strip() else ''} rc={rc}")
-    if rc != 0:
-        wal = os.path.join(d, "wal.json")
-        if os.path.exists(wal):
-            w = json.load(open(wal))
-            run.violation("crash:" + json.dumps(w), {"engine": "s2i", "crash": w, "output": txt[-2000:]},
-                          "the library aborted the process on this input")
-        else:
-            run.tool_error("harness gen-from failed:\n" + txt[-3000:])
+    if not harness_outcome(run, rc, txt, d, engine="s2i"):
         return
     m = re.search(r"rejected_by_library=(\d+)", txt)
     if m and int(m.group(1)) > 0:
@@ -248,15 +244,8 @@ def plan_queries(prop, tier, seed):
     t0 = time.time()
     rc, txt = run_harness(binary, ["gen", prop, n, seed, out, cap])
     log(f"[gen] {txt.strip().splitlines()[-1] if txt.strip() else ''} rc={rc} in {time.time() - t0:.1f}s")
-    if rc != 0:
-        wal = os.path.join(out, "wal.json")
-        if os.path.exists(wal):
-            w = json.load(open(wal))
-            run.violation("crash:" + json.dumps(w), {"engine": "i2s", "crash": w, "output": txt[-2000:]},
-                          "the library aborted the process on this input")
-        else:
-            run.tool_error("harness gen failed:\n" + txt[-3000:])
-            return run.finish()
+    if not harness_outcome(run, rc, txt, out):
+        return run.finish()
     # oracle self-test runs concurrently with validation (one more JVM)
     with ThreadPoolExecutor(max_workers=2) as ex:
         fs = ex.submit(selftest, run, 2 if tier == "quick" else 3)
@@ -405,15 +394,8 @@ def plan_sessions(prop, tier, seed):
     t0 = time.time()
     rc, txt = run_harness(binary, ["gen", prop, n, seed, out, cap])
     log(f"[gen] {txt.strip().splitlines()[-1] if txt.strip() else ''} rc={rc} in {time.time() - t0:.1f}s")
-    if rc != 0:
-        wal = os.path.join(out, "wal.json")
-        if os.path.exists(wal):
-            w = json.load(open(wal))
-            run.violation("crash:" + json.dumps(w), {"engine": "i2s", "crash": w, "output": txt[-2000:]},
-                          "the library aborted the process on this input")
-        else:
-            run.tool_error("harness gen failed:\n" + txt[-3000:])
-            return run.finish()
+    if not harness_outcome(run, rc, txt, out):
+        return run.finish()
     res = validate_dir(prop, out)
     run.add_trace_results(res, ident_session(prop), classify_session(prop), session_payload)
     corruption_sessions(run, prop, out)
@@ -469,6 +451,28 @@ class Classifier:
         elif p == "C10":
             if k == "uci" and any(x[1][0] != 1 for x in ev["semi"]):
                 return fen_of(ev)
+        elif p == "C11":
+            if k == "rawval":
+                r = ev["res"]
+                tag = "ok" if r["ok"] else r["err"][0]
+                changed = r["ok"] and r["pos"] != ev["raw"]
+                if (not r["ok"]) or changed:
+                    return chessfmt.pos_to_fen(ev["raw"]) + f" ep={ev['raw']['ep']} {tag}"
+        elif p == "C15":
+            if k == "magic":
+                return f"{ev['piece']}{ev['sq']}#{self.idx}"
+            if k in ("between", "leapers"):
+                return f"{k}{ev.get('src', '')}"
+        elif p == "C18":
+            if k == "sym" and (len(ev["a"]["legal"]) != 0) and (ev["a"]["check"] or ev["a"]["pos"]["ep"] != -1 or ev["a"]["pos"]["castling"] != 0 or ev["kind"] == "flop"):
+                return ev["kind"] + " " + chessfmt.pos_to_fen(ev["a"]["pos"])
+        elif p == "C19":
+            if k == "cap" and ev.get("semi_len", 0) >= 60:
+                return fen_of(ev)
+            if k == "parse":
+                return ev["what"] + ":" + txt(ev["text"]) + ":" + chessfmt.pos_to_fen(ev["pos"])
+        elif p == "C20":
+            return f"{k}#{self.idx}"
         elif p == "C12":
             if k == "parse" and (ev["bytes"] != len(ev["text"]) or len(ev["text"]) <= 3 or ev["res"] == "ok"):
                 return ev["what"] + ":" + txt(ev["text"])
@@ -495,6 +499,19 @@ def ident_generic(prop):
             return f"fenparse {txt(ev['text'])!r} :: {tags}"
         if k == "parse":
             return f"parse {ev['what']} {txt(ev['text'])!r} :: {tags}"
+        if k == "rawval":
+            return f"rawval {chessfmt.pos_to_fen(ev['raw'])} ep_mark={ev['raw']['ep']} :: {tags}"
+        if k == "between":
+            off = {"bishop_strict_empty_off_diagonals", "rook_strict_empty_off_lines"}
+            if set(failed) <= off:
+                return "between tables on non-aligned pairs :: " + tags      # one class, whatever the source square
+            return f"between src={ev['src']} :: {tags}"
+        if k == "magic":
+            return f"magic {ev['piece']} sq={ev['sq']} :: {tags}"
+        if k == "sym":
+            return f"sym {ev['kind']} {chessfmt.pos_to_fen(ev['a']['pos'])} :: {tags}"
+        if k == "cap":
+            return f"cap {fen_of(ev)} :: {tags}"
         return f"{k} :: {tags}"
     return f
 
@@ -559,6 +576,23 @@ def corrupt_generic(prop, evs):
                 e["semi"] = e["semi"][1:]
             elif prop == "C12" and k == "parse":
                 e["res"] = "panic"
+            elif prop == "C11" and k == "rawval":
+                e["res"]["ok"] = not e["res"]["ok"]
+                if not e["res"]["ok"]:
+                    e["res"]["err"] = ["NoKing", 0]
+            elif prop == "C15" and k == "magic":
+                ent = e["entries"][0]
+                ent[1] = ent[1][1:] if ent[1] else [0]
+                e["entries"] = e["entries"][:4]
+            elif prop == "C18" and k == "sym" and "b" in e and e["b"]["legal"]:
+                e["b"]["legal"] = e["b"]["legal"][1:]
+            elif prop == "C19" and k == "cap" and "panic" not in e:
+                e["list_len"] = e["list_len"] + 1
+            elif prop == "C20" and k == "bb_unary":
+                e["rows"] = e["rows"][:3]
+                e["rows"][0]["len"] += 1
+            elif prop == "C20" and k == "t_values":
+                e["coords"][5]["diag"] += 1
             else:
                 continue
             out.append([e])
@@ -569,7 +603,11 @@ def corrupt_generic(prop, evs):
 
 def corruption_generic(run, prop, src_dir):
     shards = sorted(glob.glob(os.path.join(src_dir, "shard_*.ndjson")))
-    traces = corrupt_generic(prop, read_lines(shards[0])) if shards else []
+    traces = []
+    for sh in shards:
+        traces = corrupt_generic(prop, read_lines(sh))
+        if traces:
+            break
     if not traces:
         run.tool_error("corruption test: nothing corruptible")
         return
@@ -601,8 +639,19 @@ GENERIC = {
     "C09": (500, 30000, 40, 300),
     "C10": (900, 50000, 70, 500),
     "C12": (60, 600, 4000, 20000),
+    "C11": (6000, 400000, 500, 4000),
+    "C15": (8, 64, 12, 40),
+    "C18": (2500, 120000, 250, 2000),
+    "C19": (1500, 60000, 400, 3000),
+    "C20": (1, 1, 4, 4),
 }
+LEVELS = {"C19": "exploration"}
 RULES.update({
+    "C11": "raw boards: the valid positions of the stream + 14 kinds of mutation of valid positions (king removed/added, pawn on 1st/8th rank, e.p. mark anywhere / on the right rank with or without its pawn structure, rights toggled with home squares disturbed, 16/17 men, side flipped, man dropped) + arbitrary random boards + every e.p. mark on every square for both sides and all 16 rights sets on two skeletons; non-trivial = rejected, or accepted with normalisation changing something",
+    "C15": "for the enumerated squares every subset of the relevant-occupancy mask (4096 max for rooks, 512 for bishops), each also with random blockers OUTSIDE the mask, plus random and full/empty occupancies (quick: 8 random squares complete, the others sampled; thorough: all 64 complete); king/knight/pawn tables for 64 squares x 2 colours; strictly-between sets and alignment predicates for all 64x64 pairs; every event is non-trivial, distinct by (piece, square, chunk)",
+    "C18": "for every position of the stream the colour-mirrored position is built through the public API and both bundles (legal moves, check, has_legal, outcome) are logged; same for the left-right flop when there are no castling rights; non-trivial = position with check, e.p., castling rights, or a flop",
+    "C19": "capacity: |PseudoLegal| by the spec = length of the safe Vec sink = length of the fixed-capacity MoveList <= 256, on the position stream, on hill-climbing maximisers of the semilegal move count (all-queen armies) and their neighbours; SAN pawn moves/captures to every square incl. the mover's own back rank; in a build with debug assertions, overflow and unsafe-precondition checks AND in an optimised build; non-trivial = position with >= 60 semilegal moves or a boundary text",
+    "C20": "every value of every finite type (8 files, 8 ranks, 64 squares, 6 pieces, 13 cells, 2 colours, 16 rights sets) through index/char/text conversions; from_index(i) for i < 300; from_char for all characters < U+0300 and samples up to U+10FFFF; every 1- and 2-character string over printable ASCII + 4 multi-byte characters through the four FromStr; bitboard algebra on all pairs of subsets of a 6-square universe, unary operations on all subsets of a 12-square universe + random 64-bit sets, bit deposit incl. EMPTY and FULL masks; shift for all squares x 17x17 offsets, add for offsets -70..70; every named constant; each event is one distinct block",
     "C02": "random chain sessions (push of Move / uci::Move / Uci(&str) / san::Move / San(&str): every kind of legal move, pseudo-legal-illegal moves, well-formed non-semilegal moves, the null move, mutated and garbage text; pops, outcome operations); after EVERY call the whole chain observation incl. re-validation of the current board is logged; non-trivial = each distinct (position, move-like value) pushed",
     "C13": "same sessions; non-trivial = refused pushes, pushes of special-kind moves, pops, equality comparisons (rebuilt chain + 6 perturbed variants); distinct by (session start, op index)",
     "C14": "shuffle-biased sessions (moves that undo the previous own move) from small endgames and castling/e.p. starts with clocks near 100/150; calc_outcome and set_auto_outcome under all three filters, a spy Repeat wrapping HashRepeat records count(); non-trivial = outcome not none or repetition count >= 2",
@@ -615,7 +664,7 @@ RULES.update({
 
 
 def plan_generic(prop, tier, seed):
-    run = Run(prop, tier, seed, "model_checking")
+    run = Run(prop, tier, seed, LEVELS.get(prop, "model_checking"))
     run.rule = RULES[prop]
     run.assumptions = [
         "the TLA+ specification (Rules, Notation, Chain) is the oracle; Rules is pinned to published perft counts by SelfTest",
@@ -634,18 +683,26 @@ def plan_generic(prop, tier, seed):
     env = {"HARNESS_DEEP": "1"} if (tier == "thorough" and prop == "C12") else None
     rc, txt_ = run_harness(binary, ["gen", prop, n, seed, out, cap], env=env)
     log(f"[gen] {txt_.strip().splitlines()[-1] if txt_.strip() else ''} rc={rc} in {time.time() - t0:.1f}s")
-    if rc != 0:
-        wal = os.path.join(out, "wal.json")
-        if os.path.exists(wal):
-            w = json.load(open(wal))
-            run.violation("crash:" + json.dumps(w), {"engine": "i2s", "crash": w, "output": txt_[-2000:]},
-                          "the library aborted the process on this input")
-        else:
-            run.tool_error("harness gen failed:\n" + txt_[-3000:])
-            return run.finish()
+    if not harness_outcome(run, rc, txt_, out):
+        return run.finish()
     res = validate_dir(prop, out)
     run.add_trace_results(res, ident_generic(prop), Classifier(prop), chain_payload)
+    m = re.search(r"CLIMB best_semilegal=(\d+)", txt_)
+    if m:
+        run.extra["max_semilegal_moves_found_by_search"] = int(m.group(1))
     corruption_generic(run, prop, out)
+    if prop == "C19":
+        # the same inputs through an OPTIMISED build (no debug assertions, wrapping arithmetic)
+        try:
+            rel = build_harness("release")
+            out2 = fresh_dir(os.path.join(WORK, f"{prop}-{tier}-release"))
+            rc2, txt2 = run_harness(rel, ["gen", prop, n, seed + 1, out2, cap])
+            log(f"[gen] release build: {txt2.strip().splitlines()[-1] if txt2.strip() else ''} rc={rc2}")
+            if harness_outcome(run, rc2, txt2, out2):
+                run.add_trace_results(validate_dir(prop, out2), ident_generic(prop), Classifier(prop), chain_payload)
+                run.extra["builds"] = ["checked (debug assertions + overflow checks + unsafe-precondition checks)", "release"]
+        except ToolError as e:
+            run.tool_error(str(e))
     if len(run.nontrivial) < 2:
         run.tool_error("vacuous coverage: fewer than 2 non-trivial cases")
     return run.finish()
